@@ -581,7 +581,7 @@ an anchor without entries (for CRound); a refused backup (CGate); a restored dat
         return;
     }
 
-    let n_hist = if args.thorough { 90 } else { 18 };
+    let n_hist = if args.thorough { 90 } else { 12 };
     let max_len = if args.thorough { 40 } else { 22 };
     let t_start: u64 = 1_700_000_000 * NS;
     let series = hook::pkg_series().to_string();
